@@ -303,9 +303,19 @@ def _r3_aspath(model: Model, run: Run, folder: Folder) -> None:
     run.check(ok4p, fi.qualname, 'AS4_PATH = original path, 4 bytes wide, only when an ASN was substituted', fi.loc(m4[0]) if m4 else fi.loc(), 'RFC 6793 4.2.2: AS4_PATH carries the real path for NEW speakers behind the OLD one')
 
 
-def _table(fn: ast.AST) -> dict[tuple, str] | None:
-    """{(send, has): returned expression} from an if-tree over a `send` local and self._has_addpath."""
+def _table(fn: ast.AST, loc: Loc | None = None) -> dict[tuple, str] | None:
+    """{(send, has): returned expression} from an if-tree over the negotiated send flag and self._has_addpath
+    (read directly or through a local, whatever it is called)."""
     out: dict[tuple, str] = {}
+
+    def role(t: ast.AST) -> str | None:
+        e = loc.resolve(t) if loc is not None else t
+        d = dotted(e) or ''
+        if d == 'self._has_addpath':
+            return 'has'
+        if isinstance(e, ast.Call) and isinstance(e.func, ast.Attribute) and e.func.attr == 'send' and (dotted(e.func.value) or '').endswith('addpath'):
+            return 'send'
+        return None
 
     def walk(body: list[ast.stmt], env: dict[str, bool]) -> bool:
         for st in body:
@@ -320,8 +330,7 @@ def _table(fn: ast.AST) -> dict[tuple, str] | None:
                 while isinstance(t, ast.UnaryOp) and isinstance(t.op, ast.Not):
                     t = t.operand
                     pol = not pol
-                d = dotted(t) or ''
-                var = 'send' if d.startswith('send') or 'addpath' in d and not d.startswith('self') else ('has' if d == 'self._has_addpath' else None)
+                var = role(t)
                 if var is None:
                     return False
                 e1 = dict(env)
@@ -361,17 +370,15 @@ def _r4_addpath(model: Model, run: Run, folder: Folder) -> None:
     }
     for fi in sorted(users, key=lambda f: f.qualname):
         run.analysed(fi)
-        t = _table(fi.node)
+        t = _table(fi.node, Loc(model, fi))
         if t is None:
             run.cannot('%s: ADD-PATH decision tree not understood' % fi.qualname)
             continue
         size = folder.fold(ast.parse('PATH_INFO_SIZE').body[0].value, fi.module)
         run.check(t == want and size == 4, fi.qualname, 'ADD-PATH table %s (PATH_INFO_SIZE=%s)' % ({k: v for k, v in sorted(t.items(), reverse=True)}, size), fi.loc(), 'RFC 7911 3: a path identifier is sent iff ADD-PATH send was negotiated for the family; expected %s' % want)
         # predicate
-        pred = None
-        for n in walk_no_nested(fi.node):
-            if isinstance(n, ast.Assign) and isinstance(n.targets[0], ast.Name) and n.targets[0].id.startswith('send'):
-                pred = n.value
+        preds = model.calls_to(fi.module, fi.node, 'RequirePath.send')
+        pred = preds[0] if len(preds) == 1 else None
         ok = isinstance(pred, ast.Call) and model.call_matches(fi.module, pred, 'RequirePath.send') and [norm(a) for a in pred.args] == ['self.afi', 'self.safi']
         run.check(bool(ok), fi.qualname, 'negotiated predicate %s' % (norm(pred) if pred is not None else None), fi.loc(), 'encoding uses the SEND direction of ADD-PATH for the NLRI own family')
 
